@@ -96,6 +96,7 @@ func (s *JavaIdentifierListener) EnterConstructorDeclaration(ctx *parser.Constru
 		IsConstructor: true,
 		Position:      position,
 	}
+	currentMethod.Parameters = buildParameters(ctx.FormalParameters())
 }
 
 func (s *JavaIdentifierListener) ExitConstructorDeclaration(ctx *parser.ConstructorDeclarationContext) {
@@ -136,6 +137,8 @@ func (s *JavaIdentifierListener) EnterMethodDeclaration(ctx *parser.MethodDeclar
 		Annotations: currentMethod.Annotations,
 		Position:    position,
 	}
+
+	currentMethod.Parameters = buildParameters(ctx.FormalParameters())
 
 	if reflect.TypeOf(ctx.GetParent().GetParent()).String() == "*parser.ClassBodyDeclarationContext" {
 		bodyCtx := ctx.GetParent().GetParent().(*parser.ClassBodyDeclarationContext)
@@ -211,6 +214,7 @@ func (s *JavaIdentifierListener) EnterInterfaceMethodDeclaration(ctx *parser.Int
 		Annotations: currentMethod.Annotations,
 		Position:    position,
 	}
+	currentMethod.Parameters = buildParameters(ctx.InterfaceCommonBodyDeclaration().(*parser.InterfaceCommonBodyDeclarationContext).FormalParameters())
 }
 
 func (s *JavaIdentifierListener) ExitInterfaceMethodDeclaration(ctx *parser.InterfaceMethodDeclarationContext) {
@@ -230,4 +234,22 @@ func (s *JavaIdentifierListener) EnterExpression(ctx *parser.ExpressionContext) 
 
 func (s *JavaIdentifierListener) GetNodes() []core_domain.CodeDataStruct {
 	return nodes
+}
+
+func buildParameters(parameters parser.IFormalParametersContext) []core_domain.CodeProperty {
+	var methodParams []core_domain.CodeProperty = nil
+	if parameters == nil {
+		return methodParams
+	}
+	parametersCtx, ok := parameters.(*parser.FormalParametersContext)
+	if !ok || parametersCtx.FormalParameterList() == nil {
+		return methodParams
+	}
+	for _, param := range parametersCtx.FormalParameterList().(*parser.FormalParameterListContext).AllFormalParameter() {
+		paramContext := param.(*parser.FormalParameterContext)
+		paramType := paramContext.TypeType().GetText()
+		paramValue := paramContext.VariableDeclaratorId().(*parser.VariableDeclaratorIdContext).Identifier().GetText()
+		methodParams = append(methodParams, core_domain.NewCodeParameter(paramType, paramValue))
+	}
+	return methodParams
 }
